@@ -27,10 +27,11 @@ INVARIANT MaskedZero
 INVARIANT PIOptimal
 INVARIANT PINotSingularDisc
 INVARIANT InstancesWellFormed
+PROPERTY CallsStartAfresh
 """
 
 DESIGN_INVS = ["VIWithinBound", "VIUpperBound", "MaskedZero", "PIOptimal", "PINotSingularDisc",
-               "InstancesWellFormed"]
+               "InstancesWellFormed", "CallsStartAfresh"]
 
 REPS = [
     dict(rep="quick", labels="int", alabels="int", explicit_list=False, dist="dict"),
@@ -100,8 +101,67 @@ def make_cases(rng, n, tier):
         rep["abs_int"] = rng.random() < 0.3
         if not rep["explicit_list"] and not gen.ghost_closed(m):
             rep["explicit_list"] = True      # ghost successors outside the inferred list: C06's business
-        cases.append({"m": m, "rep": rep})
+        # call history: the planner objects first plan on another MDP of the same shape (spec: Replan)
+        cases.append({"m": m, "rep": rep, "warm": rng.random() < 0.35})
     return cases
+
+
+NEAR_D = (100000, 131072)     # discount 1 - 1/D: closer to 1 than numpy.isclose's window (1e-5 relative)
+
+
+def near_cases(rng, n):
+    """Family `near = 1` of C01_Planners.tla: loop states T (every action a pure self-loop), states U whose actions
+    lead into T and explicitly absorbing states only; optimal values are integers over PD although 1/(1-gamma) ~ 1e5."""
+    cases = []
+    while len(cases) < n:
+        D = NEAR_D[len(cases) % 2]
+        nT, nU, nA = rng.choice([1, 1, 2]), rng.choice([1, 1, 2]), rng.choice([1, 1, 2])
+        N, K, PD = nT + nU + nA, rng.choice([2, 2, 3]), 2
+        order = list(range(N))
+        rng.shuffle(order)
+        T, U, A = set(order[:nT]), set(order[nT:nT + nU]), set(order[nT + nU:])
+        avail = []
+        for s in range(N):
+            while True:
+                row = [1 if rng.random() < 0.8 else 0 for _ in range(K)]
+                if any(row):
+                    break
+            avail.append(row)
+        P = [[[0] * N for _ in range(K)] for _ in range(N)]
+        R = [[[rng.choice([-2, -1, 0, 1, 2]) for _ in range(N)] for _ in range(K)] for _ in range(N)]
+        for s in range(N):
+            for a in range(K):
+                if s in T:
+                    P[s][a][s] = PD
+                    R[s][a][s] = rng.choice([-3, -2, -1, -1, 0, 1])
+                elif s in U:
+                    tg = sorted(T | A)
+                    row = gen.rand_row(rng, len(tg), PD)
+                    for j, t in enumerate(tg):
+                        P[s][a][t] = row[j]
+                else:
+                    P[s][a] = gen.rand_row(rng, N, PD)      # ghost dynamics of an absorbing state
+        ID = rng.choice([2, 4])
+        p0 = gen.rand_row(rng, N, ID, sparse=0.3)
+        m = {"N": N, "K": K, "PD": PD, "GN": D - 1, "GD": D, "ID": ID, "abs": [1 if s in A else 0 for s in range(N)],
+             "avail": avail, "P": P, "R": R, "p0": p0, "near": 1,
+             "EN": 1, "ED": 1024, "CAP": 30, "algs": ["oracle"], "PICAP": 100000, "undef": rng.choice([0, -7, "-inf"])}
+        rep = dict(REPS[rng.randrange(len(REPS))])
+        rep["abs_int"] = rng.random() < 0.3
+        if not rep["explicit_list"] and not gen.ghost_closed(m):
+            rep["explicit_list"] = True
+        cases.append({"m": m, "rep": rep, "warm": rng.random() < 0.35})
+    return cases
+
+
+def warm_instance(m):
+    """The MDP of the earlier call in a call history: same shape, every reward 2 lower, discount 1/2 (so that the
+    earlier call converges quickly to values below those of the case)."""
+    m2 = dict(m)
+    m2["R"] = [[[x - 2 for x in row] for row in sa] for sa in m["R"]]
+    m2["GN"], m2["GD"] = 1, 2
+    m2.pop("near", None)
+    return m2
 
 
 # --------------------------------------------------------------------------------------------
@@ -120,12 +180,23 @@ def run_real(case):
             b = build.build_mdp(m, rng=rng, **rep)
             with warnings.catch_warnings():
                 warnings.simplefilter("ignore")
-                if alg == "vec":
-                    r = ValueIteration(max_iterations=m["CAP"], max_residual=eps, undefined_value=undef,
-                                       _version="vectorized").plan_on(b.mdp)
-                elif alg == "dict":
-                    r = ValueIteration(max_iterations=m["CAP"], max_residual=eps, undefined_value=undef,
-                                       _version="dict").plan_on(b.mdp)
+                if alg in ("vec", "dict"):
+                    planner = ValueIteration(max_iterations=m["CAP"], max_residual=eps, undefined_value=undef,
+                                             _version="vectorized" if alg == "vec" else "dict")
+                else:
+                    planner = PolicyIteration(max_iterations=100000, undefined_value=undef)
+                if case.get("warm"):
+                    # call history: the same planner object has planned on another MDP of the same shape before
+                    try:
+                        wb = build.build_mdp(warm_instance(m), rng=random.Random(2), **rep)
+                        if alg == "pi":
+                            planner.batch_plan_on([wb.mdp])
+                        else:
+                            planner.plan_on(wb.mdp)
+                    except Exception:                # noqa: BLE001 - the earlier call is not judged
+                        pass
+                if alg in ("vec", "dict"):
+                    r = planner.plan_on(b.mdp)
                 else:
                     # the batch entry point: a partner MDP of the same shape but another discount rate and
                     # other rewards comes FIRST in the batch, the case's MDP second
@@ -138,9 +209,9 @@ def run_real(case):
                     b2 = build.build_mdp(m2, rng=random.Random(1), discount=pdisc,
                                          **dict(rep, explicit_list=True))
                     if tuple(b2.mdp.transition_matrix.shape) == tuple(b.mdp.transition_matrix.shape):
-                        r = PolicyIteration(max_iterations=100000, undefined_value=undef).batch_plan_on([b2.mdp, b.mdp])[1]
+                        r = planner.batch_plan_on([b2.mdp, b.mdp])[1]
                     else:
-                        r = PolicyIteration(max_iterations=100000, undefined_value=undef).batch_plan_on([b.mdp])[0]
+                        r = planner.batch_plan_on([b.mdp])[0]
             out[alg] = project(b, r)
         except Exception as e:                       # noqa: BLE001 - reported as a clause failure
             out[alg] = {"error": f"{type(e).__name__}: {e}"[:300]}
@@ -186,6 +257,14 @@ def judge_cases(ctx, cases, *, real=None):
         rec.pop("undef", None)
         rec["explicit"] = 1 if c["rep"]["explicit_list"] else 0
         batch.append(rec)
+    # call histories: the earlier call of a warmed-up case is a batch entry of its own (algs = <<"warm">>) whose
+    # field `next` names the case; the spec's Replan action starts the case's machines afresh after it
+    for i, c in enumerate(cases, start=1):
+        if c.get("warm"):
+            w = dict(warm_instance(batch[i - 1]))
+            w["algs"] = ["warm"]
+            w["next"] = i
+            batch.append(w)
     res = run_tlc(ctx.workdir / "mc", "C01_Planners", CFG, files={"batch.json": batch},
                   env={"BATCH_FILE": "batch.json", "MODE": "mc", "FAMGAMMA": "half", "FAMMOD": 1, "FAMREM": 0},
                   coverage=False)
@@ -249,7 +328,7 @@ def compare(ctx, cases, res, *, real=None):
         if orc is None:
             raise TLCFailure(f"no oracle record for case {i}")
         # machinery cross-check of the TLA+ oracle against the independent Python one
-        if i % 5 == 0:
+        if i % 5 == 0 or m.get("near"):
             pv = pyoracle.optimal_value(m)
             for s in range(m["N"]):
                 tv = frac(orc["v"][s])
@@ -269,6 +348,8 @@ def compare(ctx, cases, res, *, real=None):
                     pol[s] = list(m["avail"][s])
             jr = {k: m[k] for k in ("N", "K", "PD", "GN", "GD", "ID", "abs", "avail", "P", "R", "p0")}
             jr.update(EN=1, ED=1, CAP=1, algs=[], pol=pol, tag=f"{i}:{alg}", explicit=1)
+            if m.get("near"):
+                jr["near"] = 1
             judge_batch.append(jr)
     jby = {}
     for k0 in range(0, len(judge_batch), 20000):
@@ -280,6 +361,35 @@ def compare(ctx, cases, res, *, real=None):
             jby[r["tag"]] = r
     for i, c, orc, outs in pending:
         judge_one(ctx, i, c, orc, outs, by, jby)
+
+
+def stable_under_own_window(m, o, jr):
+    """Signature predicate of the known finding on policy iteration at discounts within 1e-5 of 1: the returned values
+    ARE the look-ahead maxima on the exact values (spec: NearPV) of the returned tie-sharing policy, and that policy is
+    stable under the code's own test - every supported action's exact look-ahead on those values lies within numpy.isclose's window
+    (1e-8 + 1e-5 |max|) of the best one.  The window is relative to action values of size ~1/(1-gamma), so actions
+    whose rewards differ by O(1) count as tied and the iteration stops on them."""
+    g = F(m["GN"], m["GD"])
+    pv = [frac(x) for x in jr["pv"]]
+    for s in o["states"]:
+        if m["abs"][s]:
+            continue
+        if not isinstance(pv[s], F):
+            return False
+        q = {}
+        for a in range(m["K"]):
+            if m["avail"][s][a]:
+                q[a] = sum(F(m["P"][s][a][t], m["PD"]) * (m["R"][s][a][t] + (0 if m["abs"][t] else g * pv[t]))
+                           for t in range(m["N"]) if m["P"][s][a][t] > 0)
+        best = max(q.values())
+        # the code reports max_a Q^pi(s, a) on the exact values of its final policy pi
+        if abs(o["V"][s] - float(best)) > 1e-9 * max(1.0, abs(float(best))):
+            return False
+        w = F(1, 10 ** 8) + F(1, 10 ** 5) * abs(best)
+        sup = set(o["pol"].get(s, {}))
+        if not sup or not sup <= set(q) or any(best - q[a] > w * F(11, 10) for a in sup):
+            return False
+    return True
 
 
 def judge_one(ctx, i, c, orc, outs, by, jby):
@@ -309,8 +419,10 @@ def judge_one(ctx, i, c, orc, outs, by, jby):
             frac(pim["v"][s]) != vstar[s] for s in range(N) if s not in cannot and s not in absall)
         if pi_stuck:
             ctx.count("pi_machine_stuck_instances")
+    near_window = [False]
     for alg, o in outs.items():
         tag = f"{i}:{alg}"
+        near_window[0] = False
         site = {"vec": "ValueIteration[vectorized]", "dict": "ValueIteration[dict]", "pi": "PolicyIteration.batch_plan_on"}[alg]
 
         def fail(clause, what, extra=None):
@@ -323,6 +435,8 @@ def judge_one(ctx, i, c, orc, outs, by, jby):
                 sig = "C01:planners:cannot-reach-policy"
             if alg == "pi" and g == 1 and pi_stuck and clause in ("value", "policy-support", "policy-return", "error"):
                 sig = "C01:PolicyIteration:undiscounted-stuck"
+            if near_window[0] and clause in ("value", "policy-support", "policy-return"):
+                sig = "C01:PolicyIteration:near-one-discount:stable-under-relative-tie-window"
             ctx.violation(sig, f"{site} {clause}: {what}", {"case": c, "alg": alg, "clause": clause, "extra": extra})
 
         if "error" in o:
@@ -330,6 +444,7 @@ def judge_one(ctx, i, c, orc, outs, by, jby):
             continue
         jr = jby.get(tag)
         listed = o["states"]
+        near_window[0] = bool(m.get("near")) and alg == "pi" and jr is not None and stable_under_own_window(m, o, jr)
         # bound of this run
         if alg == "pi":
             b = 1e-10
@@ -359,6 +474,18 @@ def judge_one(ctx, i, c, orc, outs, by, jby):
             ev = sum(F(m["p0"][s], m["ID"]) * F(o["V"][s]) for s in supp)
             if not close(o["initial_value"], ev, 1e-12):
                 fail("initial-value", f"initial_value {o['initial_value']} != sum p0*V = {float(ev)}")
+        # --- clause (one-sided part of "values equal the optimum", needs no bound and no stopping rule): undiscounted
+        #     value iteration with rewards <= 0 starts at 0 >= V* and the backup is monotone, so every iterate - also
+        #     one cut by the cap, also one whose greedy policy is improper - stays >= V* (spec: VIUpperBound)
+        if (alg in ("vec", "dict") and g == 1 and value_clause_ok
+                and all(x <= 0 for sa in m["R"] for row in sa for x in row)):
+            for s in listed:
+                if s in cannot or s in absall or not isinstance(vstar[s], F):
+                    continue
+                if o["V"][s] < float(vstar[s]) - 1e-9 * max(1.0, abs(float(vstar[s]))):
+                    fail("value", f"V[{s}]={o['V'][s]} is below the optimum V*={float(vstar[s])}: value iteration from 0 "
+                                  f"with rewards <= 0 can only approach V* from above", {"vstar": [str(x) for x in vstar]})
+                    break
         if not stopped:
             ctx.count("runs_stopped_by_cap")
             continue
@@ -500,11 +627,20 @@ def run(ctx):
     n = 300 if ctx.tier == "quick" else 6000
     ctx.rule = ("random members of MDPFam (1-3 non-absorbing + 0-2 explicitly absorbing states with ghost dynamics, "
                 "1-3 state-dependent actions, gamma in {1/2,3/4,9/10,1}, PD in {2,4}) x residual x cap x placeholder x "
-                "representation; non-trivial = >=2 non-absorbing states and some listed state with two available actions "
+                "representation x call history (35%: the planner objects planned on another MDP of the same shape first); "
+                "plus the near-one family (discount 1-1/D, D in {100000, 131072}, loop states and their predecessors); non-trivial = >=2 non-absorbing states and some listed state with two available actions "
                 "of different exact Q* whose support decision does not rest on a free near-tie")
     ctx.assumptions = ["TLC evaluates the TLA+ oracle correctly (cross-checked against an independent Fraction implementation on every 5th case)",
                        "float comparisons use 1e-9 relative slack on top of the bound named by the property"]
     cases = make_cases(rng, n, ctx.tier)
+    nn = 40 if ctx.tier == "quick" else 800
+    near = near_cases(rng, nn)
+    # spread the near-one cases over the chunks
+    step = max(1, len(cases) // max(1, len(near)))
+    for j, c in enumerate(near):
+        cases.insert(min(len(cases), j * (step + 1)), c)
+    ctx.count("near_one_discount_cases", len(near))
+    ctx.count("cases_with_call_history", sum(1 for c in cases if c.get("warm")))
     chunk = 1000
     for k in range(0, len(cases), chunk):
         judge_cases(ctx, cases[k:k + chunk])
